@@ -3,7 +3,7 @@
 set -e
 ROOT=$(cd "$(dirname "$0")/.." && pwd)
 cd "$ROOT"
-CACHE=$ROOT/.cache
+CACHE=${VERIF_CACHE:-$ROOT/.cache}
 mkdir -p "$CACHE"
 MODS_V=$(ls coq/model/*.v coq/spec/*.v 2>/dev/null)
 KEY=$(cat coq/base/Base.v coq/base/X86.v $MODS_V coq/gen/Extracted.v coq/extract/Extract.v ocaml/*.ml tools/build_driver.sh | sha256sum | cut -c1-16)
